@@ -316,7 +316,7 @@ func parkedInRouter() string {
 
 func TestVerif_C07(t *testing.T) {
 	rep := vk.NewReport(t, "C07", "exploration")
-	rep.Rule = "N=2-8 (one run in ten: 12-24, one in thirty: 33-100) concurrent connections on one RouterHandler, each running a seeded script (REQ, re-REQ of the same id, CLOSE of open and never-opened ids followed by a COUNT barrier, EVENT, COUNT, disconnect by cancel or inbound close) while a reader stamps everything it receives on one logical clock; offline, every (subscription instance, publication) pair is classified must / must-not / may by real-time order and the deliveries are checked (exactly once for must, never for must-not, at most once always, own sub ids only, publication order per publisher); registry size after disconnects; back-pressure scenarios with stalled subscribers and small buffers (publishers must finish, draining subscribers lose nothing, the stalled one gets an in-order duplicate-free subsequence of at least min(buffer, M)); publishers cancelled while their own EVENT is fanned out to 90-420 old subscriptions (whenever the accepting OK still arrived, all of them must get the event); runs under GOMAXPROCS 16/4/1 with verifPoint delays; non-trivial = a run with at least one must and one must-not pair; distinct = distinct interleaving signatures (operation-type sequence in clock order)"
+	rep.Rule = "N=2-8 (one run in ten: 12-24, one in thirty: 33-100) concurrent connections on one RouterHandler, each running a seeded script (REQ, re-REQ of the same id, CLOSE of open and never-opened ids followed by a COUNT barrier, EVENT, COUNT, disconnect by cancel or inbound close) while a reader stamps everything it receives on one logical clock; offline, every (subscription instance, publication) pair is classified must / must-not / may by real-time order and the deliveries are checked (exactly once for must, never for must-not, at most once always, own sub ids only, publication order per publisher); registry size after disconnects; back-pressure scenarios with stalled subscribers and small buffers (publishers must finish, draining subscribers lose nothing, the stalled one gets an in-order duplicate-free subsequence of at least min(buffer, M)); publishers cancelled while their own EVENT is fanned out to 90-420 old subscriptions (whenever the accepting OK still arrived, all of them must get the event); runs under GOMAXPROCS 16/4/1 with verifPoint delays; added later: events and kind filters over kinds 0..65535 (below and at 64, four and five digits); a subscriber that overflowed takes a few deliveries (fewer than half a buffer) and a publication acknowledged after that must arrive; non-trivial = a run with at least one must and one must-not pair; distinct = distinct interleaving signatures (operation-type sequence in clock order)"
 	defer rep.Finish()
 	pc := &pointCtl{sleep: true, only: "router."}
 	mocrelay.SetVerifPoint(pc.fn)
